@@ -127,6 +127,7 @@ structure S where
   global : Bool := false            -- responseTimer armed
   failNext : List PoolFail := []    -- scripted outcomes of the next NewStream calls (FIFO)
   hostsGone : Bool := false
+  globalExpired : Bool := false     -- globalTimeoutExpired
   -- ledger
   retries : Int := 0                -- Retries().Cur()
   requests : Int := 0               -- Requests().Cur()
@@ -147,7 +148,6 @@ inductive Label where
   | globalFire
   | downReset (reason : Reason)
   | connClose
-  | terminate (code : Nat)
   deriving DecidableEq, Repr, Inhabited
 
 def emit (s : S) (e : Ev) : S := { s with trace := s.trace ++ [e] }
@@ -252,28 +252,35 @@ def resetDownstream (c : Cfg) (s : S) : S :=
 /-- `downStream.endStream()` -/
 def endStream (c : Cfg) (s : S) : S := cleanStream c s
 
-/-- `downStream.setupRetry(endStream)` -/
-def setupRetry (c : Cfg) (s : S) (eos : Bool) : S :=
+/-- `downStream.setupRetry(endStream)`: refuses (false) when the global timeout has already expired -/
+def setupRetry (c : Cfg) (s : S) (eos : Bool) : S × Bool :=
+  if setupRetryChecksExpiry && s.globalExpired then (s, false) else
   let s := { s with setupRetry := true }
   let s := if !eos then resetUpstream c s else s
-  { s with perTry := false, urr := false }
+  ({ s with perTry := false, urr := false }, true)
+
+/-- the part of `onUpstreamReset` after the retry decision: clean up timers, then reset or reply -/
+def onUpstreamResetFinish (c : Cfg) (s : S) (reason : Reason) : S :=
+  let s := cleanUp c s
+  if s.respStarted then resetDownstream c s
+  else
+    let s := orFlag s (reasonToFlag reason)
+    let s := { s with upReset := false }
+    sendHijack s (reasonToCode reason) false
 
 /-- `downStream.onUpstreamReset(reason)` -/
 def onUpstreamReset (c : Cfg) (s : S) : S :=
   let reason := s.resetReason
-  let tryRetry := reason != .UpstreamGlobalTimeout && !s.respStarted && s.rs.isSome
-  let (s, check) := if tryRetry then Gen.ProxyRetry.retry (retryOps c (some reason)) s else (s, Gen.ProxyRetry.NoRetry)
-  if tryRetry && check == Gen.ProxyRetry.ShouldRetry then
-    let s := setupRetry c s true
-    { s with upReset := false }
-  else
-    let s := if tryRetry && check == Gen.ProxyRetry.RetryOverflow then orFlag s UpstreamOverflow else s
-    let s := cleanUp c s
-    if s.respStarted then resetDownstream c s
+  if reason != .UpstreamGlobalTimeout && !s.respStarted && s.rs.isSome then
+    let (s, check) := Gen.ProxyRetry.retry (retryOps c (some reason)) s
+    if check == Gen.ProxyRetry.ShouldRetry then
+      match setupRetry c s true with
+      | (s, true) => { s with upReset := false }
+      | (s, false) => onUpstreamResetFinish c s reason
     else
-      let s := orFlag s (reasonToFlag reason)
-      let s := { s with upReset := false }
-      sendHijack s (reasonToCode reason) false
+      let s := if check == Gen.ProxyRetry.RetryOverflow then orFlag s UpstreamOverflow else s
+      onUpstreamResetFinish c s reason
+  else onUpstreamResetFinish c s reason
 
 /-- `downStream.appendHeaders(endStream)` (response headers to the client) -/
 def dsAppendHeaders (c : Cfg) (s : S) (eos : Bool) : S :=
@@ -298,17 +305,22 @@ def onUpstreamResponseRecvFinished (c : Cfg) (s : S) : S :=
   let s := if !s.reqSent then resetUpstream c s else s
   cleanUp c s
 
+/-- the part of `onUpstreamHeaders` after the retry decision -/
+def onUpstreamHeadersFinish (c : Cfg) (s : S) (eos : Bool) : S :=
+  let s := { s with respStarted := true }
+  let s := if eos then onUpstreamResponseRecvFinished c s else s
+  dsAppendHeaders c s eos
+
 /-- `downStream.onUpstreamHeaders(endStream)` -/
 def onUpstreamHeaders (c : Cfg) (s : S) (eos : Bool) : S :=
-  let (s, check) := if s.rs.isSome then Gen.ProxyRetry.retry (retryOps c none) s else (s, Gen.ProxyRetry.NoRetry)
-  if s.rs.isSome && check == Gen.ProxyRetry.ShouldRetry then
-    setupRetry c s eos
-  else
-    let s := if s.rs.isSome && check == Gen.ProxyRetry.RetryOverflow then orFlag s UpstreamOverflow else s
-    let s := if s.rs.isSome then rsReset c s else s
-    let s := { s with respStarted := true }
-    let s := if eos then onUpstreamResponseRecvFinished c s else s
-    dsAppendHeaders c s eos
+  if s.rs.isSome then
+    let (s, check) := Gen.ProxyRetry.retry (retryOps c none) s
+    let (s, retried) := if check == Gen.ProxyRetry.ShouldRetry then setupRetry c s eos else (s, false)
+    if retried then s
+    else
+      let s := if check == Gen.ProxyRetry.RetryOverflow then orFlag s UpstreamOverflow else s
+      onUpstreamHeadersFinish c (rsReset c s) eos
+  else onUpstreamHeadersFinish c s eos
 
 /-- `downStream.onUpstreamData(endStream)` -/
 def onUpstreamData (c : Cfg) (s : S) (eos : Bool) : S :=
@@ -403,7 +415,7 @@ def doRetry (c : Cfg) (s : S) : S :=
     let s := upAppendHeaders c s (!c.hasData && !c.hasTrailers)
     let s := if c.hasData then upAppendData s (!c.hasTrailers) else s
     let s := if c.hasTrailers then upAppendTrailers s else s
-    let s := setupPerReqTimeout c s
+    let s := if retryArmsGlobalWhenUnsent && !s.reqSent then onUpstreamRequestSent c s else setupPerReqTimeout c s
     { s with reqSent := true, recvDone := true }
 
 /-! ### processError (regenerated control flow instantiated on `S`) -/
@@ -537,10 +549,12 @@ def globalFire (c : Cfg) (s : S) : S :=
   if !s.global then s else
   let s := { s with global := false }
   if s.cleaned then s
-  else if s.urr then s
   else
-    let s := { s with urr := true }
-    if s.up.isSome then upOnResetStream (resetUpstream c s) .UpstreamGlobalTimeout else s
+    let s := if globalCallbackRecordsExpiry then { s with globalExpired := true } else s
+    if s.urr then s
+    else
+      let s := { s with urr := true }
+      if s.up.isSome then upOnResetStream (resetUpstream c s) .UpstreamGlobalTimeout else s
 
 /-- the downstream stream is reset by the stream layer (client went away) -/
 def downResetL (c : Cfg) (s : S) (reason : Reason) : S :=
@@ -569,7 +583,6 @@ def step (c : Cfg) (s : S) : Label → S
   | .globalFire => globalFire c s
   | .downReset r => downResetL c s r
   | .connClose => connClose s
-  | .terminate code => terminate s code
 
 /-- initial state for ambient load (slots held by other requests of the cluster) -/
 def init (ambRetries ambRequests : Nat) : S := { retries := ambRetries, requests := ambRequests, upActive := 0 }
